@@ -600,7 +600,7 @@ class TLSConnection(TLSRecordLayer):
         # If the server elected to resume the session, it is handled here.
         for result in self._clientResume(session, serverHello,
                         clientHello.random,
-                        nextProto, settings):
+                        nextProto, settings, clientHello.session_id):
             if result in (0, 1): yield result
             else: break
 
@@ -874,6 +874,10 @@ class TLSConnection(TLSRecordLayer):
             for cached_ticket in session.tls_1_0_tickets:
                 extensions.append(SessionTicketExtension().create(
                     cached_ticket.ticket))
+                # RFC 5077, section 3.4: send a session ID with the ticket,
+                # the server echoes it if (and only if) it accepts the ticket
+                if not session.sessionID and not session_id:
+                    session_id = getRandomBytes(32)
                 break
             else:
                 # or just advertise that we support session resumption
@@ -1876,11 +1880,15 @@ class TLSConnection(TLSRecordLayer):
         return None
 
     def _clientResume(self, session, serverHello, clientRandom,
-                      nextProto, settings):
+                      nextProto, settings, sent_session_id=None):
 
+        # a server that accepts the session ticket echoes the session ID of
+        # the ClientHello (RFC 5077, section 3.4), one that declines it
+        # doesn't and continues with a full handshake
         if session and ((session.sessionID and \
             serverHello.session_id == session.sessionID) or
-            session.tls_1_0_tickets):
+            (session.tls_1_0_tickets and sent_session_id and
+             serverHello.session_id == sent_session_id)):
 
             if serverHello.cipher_suite != session.cipherSuite:
                 for result in self._sendError(\
